@@ -174,4 +174,9 @@ def language_foundation(ctx):
     dispatch.analyze(ctx, {"C02.c"})
     closure_rules.analyze(ctx, {"C02.d", "C02.e"})
     sharing.analyze(ctx, {"C02.f"})
+    from . import classes, casts
+    classes.analyze(ctx, {"C08.e"})
+    from . import pC06
+    pC06.compiled_mode_rules(ctx, "C02.h")   # every configured pattern reaches the compiler, unmodified
+    casts.analyze(ctx, {"C17.a"})   # ids of states, groups and classes are injective (no narrowing cast on a count or index)
     minimizer_rules.analyze(ctx, {"C03.a", "C03.b", "C03.c", "C03.d", "C03.e", "C03.f", "C03.g", "C03.h"})
